@@ -1,8 +1,9 @@
 #!/venv/bin/python
 """Run the checks against the seeded breaking changes kept in /verif/seeded/<id>/.
 
-For each: `git -C /repo apply patch.diff`, run the property's check (quick; thorough
-if quick misses and --thorough is given), then ALWAYS `git -C /repo checkout -- .`.
+For each: apply patch.diff to a scratch copy of /repo's working tree (default; VERIF_REPO points the check at it) or,
+with --in-repo, to /repo itself (`git -C /repo apply` ... ALWAYS followed by `git -C /repo checkout -- .`), and run the
+property's check (quick; thorough if quick misses and --thorough is given).
 Evidence and replays are redirected (VERIF_OUT) so that committed evidence is never
 touched.  Writes /verif/selftest/seeded_report.json.
 """
@@ -28,8 +29,10 @@ def repo_clean():
     return sh(["git", "-C", "/repo", "status", "--porcelain", "--untracked-files=no"]).stdout.strip() == ""
 
 
-def run_check(prop, tier, out, extra=()):
+def run_check(prop, tier, out, extra=(), repo=None):
     env = dict(os.environ, VERIF_OUT=out)
+    if repo:
+        env["VERIF_REPO"] = repo
     t0 = time.time()
     p = sh([PY, os.path.join(HERE, "cli.py"), "check", prop, "--tier", tier] + list(extra), env=env, timeout=3600)
     viol = [l for l in p.stdout.splitlines() if l.startswith("VIOLATION")]
@@ -41,6 +44,7 @@ def main():
     ap = argparse.ArgumentParser()
     ap.add_argument("--only")
     ap.add_argument("--thorough", action="store_true")
+    ap.add_argument("--in-repo", action="store_true", help="apply the patch to /repo itself (git apply ... git checkout -- .) instead of a scratch copy")
     ap.add_argument("--all-props", action="store_true", help="also run the other claimed properties' quick checks")
     a = ap.parse_args()
     if not repo_clean():
@@ -58,30 +62,43 @@ def main():
         prop = meta["property"]
         out = tempfile.mkdtemp(prefix="simq-seeded-")
         row = {"id": name, "property": prop}
+        scratch = None
         try:
-            ap_ = sh(["git", "-C", "/repo", "apply", os.path.join(d, "patch.diff")])
+            if a.in_repo:
+                ap_ = sh(["git", "-C", "/repo", "apply", os.path.join(d, "patch.diff")])
+                target = None
+            else:
+                # default: a scratch copy of /repo's working tree (so nothing else that uses /repo at the same time is disturbed)
+                scratch = tempfile.mkdtemp(prefix="simq-seedrepo-")
+                sh(["rsync", "-a", "--exclude", ".git", "--exclude", "*.so", "--exclude", "__pycache__", "--exclude", "docs", "--exclude", "tests",
+                    "--exclude", "notebook_examples", "/repo/", scratch + "/"])
+                ap_ = sh(["patch", "-p1", "-s", "-d", scratch, "-i", os.path.join(d, "patch.diff")])
+                target = scratch
             if ap_.returncode:
                 row["error"] = "patch does not apply: " + ap_.stdout[-300:]
                 rows.append(row)
                 print(name, row["error"])
                 continue
             try:
-                row["quick"] = run_check(prop, "quick", out)
+                row["quick"] = run_check(prop, "quick", out, repo=target)
                 caught = row["quick"]["rc"] == 1 and row["quick"]["violations"] > 0
                 if not caught and a.thorough:
-                    row["thorough"] = run_check(prop, "thorough", out)
+                    row["thorough"] = run_check(prop, "thorough", out, repo=target)
                     caught = row["thorough"]["rc"] == 1 and row["thorough"]["violations"] > 0
                 row["caught"] = caught
                 if a.all_props:
                     row["other_properties"] = {}
                     for q in sorted(PROPS):
                         if q != prop:
-                            r = run_check(q, "quick", out, ["--wall", "30"])
+                            r = run_check(q, "quick", out, ["--wall", "30"], repo=target)
                             row["other_properties"][q] = {"rc": r["rc"], "violations": r["violations"], "detail": r["detail"][:1]}
             finally:
-                sh(["git", "-C", "/repo", "checkout", "--", "."])
+                if a.in_repo:
+                    sh(["git", "-C", "/repo", "checkout", "--", "."])
         finally:
             shutil.rmtree(out, ignore_errors=True)
+            if scratch:
+                shutil.rmtree(scratch, ignore_errors=True)
         rows.append(row)
         q = row.get("quick", {})
         print("%-55s %s caught=%s quick_rc=%s wall=%ss %s" % (name, prop, row.get("caught"), q.get("rc"), q.get("wall_s"), (q.get("detail") or [""])[0][:160]), flush=True)
